@@ -416,7 +416,27 @@ func injectCollision(r interface{ Intn(int) int }, p *proj.Project) {
 			if x.Recv != "" {
 				name = strings.ToLower(x.Recv) + ":" + name
 			}
-			// the alias under which the package was imported is unknown here; a bare name hits root imports
+			// the alias under which the package is imported stands in the tag comment of its import spec: an Aliases key
+			// spelled `importalias:target` collides with the imported target itself; a bare name hits root imports
+			impAlias := ""
+			for _, fl := range p.Main.Files {
+				for _, sp := range fl.Imports {
+					if sp.Path != path {
+						continue
+					}
+					for _, grp := range [][]string{sp.Doc, sp.Trailing, sp.DeclDoc} {
+						for _, ln := range grp {
+							fs := strings.Fields(strings.ToLower(strings.TrimLeft(ln, "/* ")))
+							if len(fs) == 2 && fs[0] == "mage:import" {
+								impAlias = fs[1]
+							}
+						}
+					}
+				}
+			}
+			if impAlias != "" && r.Intn(3) > 0 {
+				name = impAlias + ":" + name
+			}
 			addAlias(p, name, ref)
 			break
 		}
